@@ -182,7 +182,12 @@ def py_eval(node_or_src, ds, extra=None) -> Any:
     else:
         node = node_or_src
     node = _SeqLiterals().visit(__import__("copy").deepcopy(node))
-    code = compile(ast.fix_missing_locations(ast.Expression(node)), "<query>", "eval")
+    import warnings
+
+    with warnings.catch_warnings():
+        # a recorded query may call a constant (a binder that shadowed a helper was replaced): CPython warns at compile time
+        warnings.simplefilter("ignore", SyntaxWarning)
+        code = compile(ast.fix_missing_locations(ast.Expression(node)), "<query>", "eval")
     env = base_env(ds)
     env["_Seq"] = Seq
     env["_AttrDict"] = AttrDict
